@@ -12,10 +12,11 @@ Usage: tools_seed_eval.py <ID-n> [<ID-n> ...] [--checks C01,C09] [--skip-confirm
 """
 import json, os, shutil, subprocess, sys, time
 
-os.makedirs("/tmp/eval-tmp", exist_ok=True)
-ENV = dict(os.environ, CARGO_NET_OFFLINE="true", TMPDIR="/tmp/eval-tmp")
+_TMP = os.environ.get("SEED_EVAL_DIR", "/tmp/eval") + "-tmp"
+os.makedirs(_TMP, exist_ok=True)
+ENV = dict(os.environ, CARGO_NET_OFFLINE="true", TMPDIR=_TMP)
 OUT = "/tmp/seeded-out"
-EVAL = "/tmp/eval"
+EVAL = os.environ.get("SEED_EVAL_DIR", "/tmp/eval")  # several evaluations can run side by side in different directories
 
 
 def sh(cmd, cwd=None, timeout=3600):
